@@ -52,9 +52,15 @@ Proof. exact untag_refuted. Qed.
 Print Assumptions C18_untag_refuted.
 
 (* ---- typed dataclasses: an object in canonical Python shape (IndefiniteList exactly for the non-empty lists,
-   plain bytes of at most 64 bytes, int/bytes dict keys without duplicates, canonical raw data inside Datum /
-   IndefiniteList fields, integers below 2^512) that passes pycardano's own validate() encodes to exactly the
-   reference bytes of its content — for every class description and value ---- *)
+   plain bytes of at most 64 bytes, dict keys that are int / bytes / ByteString or INSTANCES OF TYPED CLASSES built
+   from such keys again (hkey: Map Credential Integer, Dict[Slot, ..]; any constructor id, with or without fields,
+   nested) and that differ pairwise in content, canonical raw data inside Datum / IndefiniteList fields, integers
+   below 2^512) that passes pycardano's own validate() encodes to exactly the reference bytes of its content — for
+   every class description and value.  In particular the field list of a constructor used as a map KEY is
+   written with indefinite length (to_primitive freezes keys; the frozen lists keep their kind).
+   Changed with the extension to class-instance keys: canon_typed now admits such keys (it admitted int / bytes /
+   ByteString keys only) and asks for keys that differ in content (abs) instead of keys that differ as Python
+   values; the conclusion is unchanged. ---- *)
 Theorem C18_typed : forall x, canon_typed x = true -> validate x = true -> to_cbor x = Ok (plutus_bytes (abs x)).
 Proof. exact typed_enc. Qed.
 Print Assumptions C18_typed.
@@ -143,6 +149,16 @@ Theorem C18_regions_sound :
                         typed_model route t x = typed_expect route x).
 Proof. exact (conj raw_region_sound typed_region_sound). Qed.
 Print Assumptions C18_regions_sound.
+
+(* ---- anchor for maps keyed by class instances: the object
+     Schedule({Slot(400,7): [1,2], Slot(3,2^32): [b"x"]}, {Cred(03..): -1, Cred(11..): 3})   (Slot = constructor 1000)
+   is inside the premises of C18_typed, its reference bytes are the literal below (produced by an independent
+   transcription of encodeData), and to_cbor yields them ---- *)
+Theorem C18_typed_objkey_anchor :
+  canon_typed x_objkey = true /\ validate x_objkey = true
+  /\ plutus_bytes (abs x_objkey) = objkey_bytes /\ to_cbor x_objkey = Ok objkey_bytes.
+Proof. exact objkey_anchor. Qed.
+Print Assumptions C18_typed_objkey_anchor.
 
 (* ---- anchor: the reference encoder reproduces the Haskell-generated fixture byte for byte ---- *)
 Theorem C18_reference_anchor :
